@@ -72,6 +72,14 @@ func H07_seq() {
 		preIt = prePL.Iterator(true, true, true, nil)
 		_, _ = preIt.Next()
 	}
+	if variant == 4 {
+		// the objects of a lookup that missed (the shared "empty" list and iterator) are passed back as preallocation
+		prePL, err = dict.PostingsList([]byte("no-such-term"), nil, nil)
+		vAssert(err == nil && prePL != nil && prePL.Count() == 0, "miss-pl")
+		preIt = prePL.Iterator(true, true, true, nil)
+		mp, err := preIt.Next()
+		vAssert(err == nil && mp == nil, "miss-it")
+	}
 	pl, err := dict.PostingsList([]byte("a"), except, prePL)
 	vAssert(err == nil && pl != nil, "pl")
 	vAssert(pl.Count() == uint64(len(live)), "count")
@@ -149,6 +157,12 @@ func H07_seq() {
 		}
 		last = int64(e.doc)
 		pos++
+	}
+	if variant == 4 {
+		// a later lookup that misses still answers empty, and the shared sentinels are untouched
+		again, err := dict.PostingsList([]byte("no-such-term"), nil, nil)
+		vAssert(err == nil && again.Count() == 0, "miss-again-empty")
+		vSentinelsIntact()
 	}
 }
 
